@@ -23,7 +23,7 @@ NA = {
 CHECKS = {
  "C07": dict(
    category="exploration",
-   text="Seeded search over the only schedule this library has - the iteration order of every std HashMap/HashSet, owned by the simulator through an interposed getrandom - crossed with thread history, concurrent compiles interleaved at include-load boundaries, heap layout, stack size, a simulated wall clock (interposed clock_gettime: every execution has its own epoch and every read jumps by 0.2-3.2 s, differently per execution), a simulated process environment (fourteen variables set or removed per execution), decoy files on disk under the names of the scenario's own files (every worker lives in a private scratch directory) and (sample) a second process. Every scenario (repository shaders, generated container-filling programs and each of their error tails alone, generated include graphs, faulted variants, snippets of the repository's tests; accepted and rejected; all targets and options incl. source_info) is executed 6 (quick) / 16 (thorough) times and all outcomes - bytes, metadata, stages, pipeline state, diagnostics, panics - must be identical. Exploration is the right level: the space of hash keys is 2^128 per thread and only sampling is possible; probes measure that the order-sensitive containers really held >= 2 elements in >= 2 orders.",
+   text="Seeded search over the only schedule this library has - the iteration order of every std HashMap/HashSet, owned by the simulator through an interposed getrandom - crossed with thread history, concurrent compiles interleaved at include-load boundaries, heap layout, stack size, a simulated wall clock (interposed clock_gettime: every execution has its own epoch and every read jumps by 0.2-3.2 s, differently per execution), a simulated process environment (fourteen variables set or removed per execution), decoy files on disk under the names of the scenario's own files (every worker lives in a private scratch directory) and (sample) a second process; generated flat trees are also compiled twice from one caller-held table through rssl's own array handler. Every scenario (repository shaders, generated container-filling programs and each of their error tails alone, generated include graphs, faulted variants, snippets of the repository's tests; accepted and rejected; all targets and options incl. source_info) is executed 6 (quick) / 16 (thorough) times and all outcomes - bytes, metadata, stages, pipeline state, diagnostics, panics - must be identical. Exploration is the right level: the space of hash keys is 2^128 per thread and only sampling is possible; probes measure that the order-sensitive containers really held >= 2 elements in >= 2 orders.",
    note="Trusted: the getrandom and clock_gettime interpositions (self-checked every run), the outcome serialisation (Debug of the public result types). Not reached: nondeterminism that needs an input shape none of the workloads produce. The load-request order is logged but deliberately not part of the oracle (the statement does not promise it).",
    technique="deterministic simulation: seeded hash-order schedules (getrandom seam) x thread history x baton-scheduled concurrent compiles x simulated clock and environment, outcome equality across executions",
    design="4 C07"),
